@@ -26,11 +26,29 @@ func (in *Interp) execInstr(fr *frame, instr ssa.Instruction) {
 		p := in.get(fr, x.Addr).(*Ptr)
 		in.store(p, in.get(fr, x.Val))
 	case *ssa.FieldAddr:
-		p := in.get(fr, x.X).(*Ptr)
+		var p *Ptr
+		switch b := in.get(fr, x.X).(type) {
+		case *Ptr:
+			p = b
+		case *HostV:
+			if hostIsNil(b) {
+				p = NilPtr
+			} else {
+				p = &Ptr{host: b}
+			}
+		default:
+			in.fail("FieldAddr on %T", b)
+		}
 		if p.IsNil() {
 			panic(&goPanic{msg: "runtime error: invalid memory address or nil pointer dereference", pos: in.curPos})
 		}
 		if p.host != nil {
+			if sf := p.host.rv.Elem().Type().Field(x.Field); sf.Anonymous && sf.PkgPath != "" {
+				// unexported embedded struct of a host object (e.g. types.object inside *types.TypeName):
+				// only used as receiver of promoted methods, which reflection reaches through the outer object
+				fr.locals[x] = p
+				return
+			}
 			f := p.host.rv.Elem().Field(x.Field)
 			if !f.CanAddr() {
 				in.fail("FieldAddr on non-addressable host value")
@@ -182,7 +200,19 @@ func (in *Interp) unop(fr *frame, x *ssa.UnOp) Value {
 	v := in.get(fr, x.X)
 	switch x.Op {
 	case token.MUL: // load
-		return in.load(v.(*Ptr))
+		switch p := v.(type) {
+		case *Ptr:
+			if p.host != nil {
+				return in.fromHost(p.host.rv.Elem(), x.Type())
+			}
+			return in.load(p)
+		case *HostV:
+			if hostIsNil(p) {
+				panic(&goPanic{msg: "runtime error: invalid memory address or nil pointer dereference", pos: in.curPos})
+			}
+			return in.fromHost(p.rv.Elem(), x.Type())
+		}
+		in.fail("load through %T", v)
 	case token.NOT:
 		return in.St.Not(v.(*sym.Term))
 	case token.SUB:
